@@ -25,8 +25,10 @@ import (
 
 type bufCtx struct {
 	recv   types.Object
-	isChan bool // receiver is a C[T] value: the buffer is c.Buffer, the channel number c.channel
-	res    bool // translating in the res shape
+	bufObj types.Object // the variable that denotes the buffer (the receiver, or Put's parameter)
+	isPool bool         // receiver is a *PoolAllocator[T]: p.alloc.X are the parameters a_ch, a_len, a_cap
+	isChan bool         // receiver is a C[T] value: the buffer is c.Buffer, the channel number c.channel
+	res    bool         // translating in the res shape
 	void   bool
 	wrote  bool // heap or header changed somewhere: the method is not read-only
 }
@@ -46,7 +48,7 @@ func (b *body) isBufExpr(e ast.Expr) bool {
 	case *ast.ParenExpr:
 		return b.isBufExpr(x.X)
 	case *ast.Ident:
-		return !b.bm.isChan && t.info.Uses[x] == b.bm.recv
+		return !b.bm.isChan && t.info.Uses[x] == b.bm.bufObj
 	case *ast.SelectorExpr:
 		if id, ok := x.X.(*ast.Ident); ok && b.bm.isChan && t.info.Uses[id] == b.bm.recv && x.Sel.Name == "Buffer" {
 			return true
@@ -101,6 +103,20 @@ func (b *body) bufExpr(e ast.Expr, en env, bs *binds) (string, ty, bool) {
 		}
 		if id, ok := x.X.(*ast.Ident); ok && b.bm.isChan && t.info.Uses[id] == b.bm.recv && x.Sel.Name == "channel" {
 			return "c_channel", intT, true
+		}
+		if b.bm.isPool {
+			if in, ok := x.X.(*ast.SelectorExpr); ok && in.Sel.Name == "alloc" {
+				if id, ok := in.X.(*ast.Ident); ok && t.info.Uses[id] == b.bm.recv {
+					switch x.Sel.Name {
+					case "Channels":
+						return "a_ch", intT, true
+					case "Length":
+						return "a_len", intT, true
+					case "Capacity":
+						return "a_cap", intT, true
+					}
+				}
+			}
 		}
 	case *ast.IndexExpr:
 		if b.isDataExpr(x.X) {
@@ -301,10 +317,53 @@ func (b *body) bufStmt(s ast.Stmt, tail []ast.Stmt, rest [][]ast.Stmt, en env, i
 			en.bv = d
 			return out + b.stmts(tail, rest, en, ind), true
 		}
+	case *ast.RangeStmt:
+		// for i := range b.data { b.data[i] = c }: every position of the window gets the (loop-invariant) value c
+		if !b.isDataExpr(x.X) || x.Value != nil || x.Tok != token.DEFINE || len(x.Body.List) != 1 {
+			fail("range loop other than `for i := range b.data { b.data[i] = c }`")
+		}
+		key, ok := x.Key.(*ast.Ident)
+		as, ok2 := x.Body.List[0].(*ast.AssignStmt)
+		if !ok || !ok2 || as.Tok != token.ASSIGN || len(as.Lhs) != 1 {
+			fail("range loop body")
+		}
+		ix, ok := as.Lhs[0].(*ast.IndexExpr)
+		if !ok || !b.isDataExpr(ix.X) {
+			fail("range loop body does not store into the window")
+		}
+		if iid, ok := ix.Index.(*ast.Ident); !ok || t.info.Uses[iid] != t.info.Defs[key] {
+			fail("range loop stores at an index other than the loop variable")
+		}
+		var bs binds
+		v, _ := b.expr(as.Rhs[0], en, &bs) // fails if it mentions the loop variable (not a translated local)
+		h2 := en.fresh("h")
+		out := pre(bs) + ind + fmt.Sprintf("let %s := storeList %s %s.blk %s.off (List.replicate %s.len %s)\n", h2, en.hv, en.bv, en.bv, en.bv, v)
+		en.hv = h2
+		b.bm.wrote = true
+		return out + b.stmts(tail, rest, en, ind), true
 	case *ast.ExprStmt:
 		call, ok := x.X.(*ast.CallExpr)
 		if !ok {
 			return "", false
+		}
+		if id, ok := call.Fun.(*ast.Ident); ok && id.Name == "mustSame" && len(call.Args) == 3 {
+			var bs binds
+			l, _ := b.expr(call.Args[0], en, &bs)
+			r, _ := b.expr(call.Args[1], en, &bs)
+			tv := t.info.Types[call.Args[2]]
+			if tv.Value == nil {
+				fail("mustSame with a non-constant message")
+			}
+			kind := panicKind(strings.Trim(tv.Value.ExactString(), "\""))
+			return pre(bs) + ind + fmt.Sprintf("if (%s ≠ %s) then\n%s  Res.panic %s %s\n%selse\n", l, r, ind, en.hv, kind, ind) + b.stmts(tail, rest, en, ind+"  "), true
+		}
+		// p.pool.Put(b): handing the header to sync.Pool is outside the model of this function (the pool machine)
+		if b.bm.isPool {
+			if sel, ok := call.Fun.(*ast.SelectorExpr); ok && sel.Sel.Name == "Put" {
+				if in, ok := sel.X.(*ast.SelectorExpr); ok && in.Sel.Name == "pool" && len(call.Args) == 1 && b.isBufExpr(call.Args[0]) {
+					return b.stmts(tail, rest, en, ind), true
+				}
+			}
 		}
 		if id, ok := call.Fun.(*ast.Ident); ok && id.Name == "panic" && len(call.Args) == 1 {
 			tv := t.info.Types[call.Args[0]]
@@ -395,7 +454,18 @@ func (t *tr) bufMethodShape(d *ast.FuncDecl, obj types.Object, name string, res 
 	}()
 	sig := obj.Type().(*types.Signature)
 	owner, _ := bufName(obj)
-	bm := &bufCtx{recv: sig.Recv(), isChan: owner == "C", res: res, void: sig.Results().Len() == 0}
+	bm := &bufCtx{recv: sig.Recv(), bufObj: sig.Recv(), isChan: owner == "C", isPool: owner == "PoolAllocator", res: res, void: sig.Results().Len() == 0}
+	if bm.isPool {
+		bm.bufObj = nil
+		for i := 0; i < sig.Params().Len(); i++ {
+			if isBufferPtr(sig.Params().At(i).Type()) && bm.bufObj == nil {
+				bm.bufObj = sig.Params().At(i)
+			}
+		}
+		if bm.bufObj == nil {
+			fail("no buffer parameter")
+		}
+	}
 	if bm.void && !res {
 		panic(needRes{"no result"})
 	}
@@ -411,8 +481,14 @@ func (t *tr) bufMethodShape(d *ast.FuncDecl, obj types.Object, name string, res 
 	if bm.isChan {
 		params += " (c_channel : Int)"
 	}
+	if bm.isPool {
+		params += " (a_ch a_len a_cap : Int)"
+	}
 	for i := 0; i < sig.Params().Len(); i++ {
 		v := sig.Params().At(i)
+		if v == bm.bufObj {
+			continue
+		}
 		pt := t.tyOf(v.Type())
 		switch pt.c {
 		case cInt, cMixed:
